@@ -1,11 +1,11 @@
-\* thorough: data sets of <= 5 items, selections of <= 2 selectors, strings of <= 4 classes;
-\* every selection of <= 1 selector (3 ASNs, 7 query prefixes, with/without more-specifics), all 8 type
-\* exclusions, all 6 format families, every state of the stream state machine; every string of <= 3
-\* character classes at every escaping site.
+\* thorough: every data set of <= 5 items out of the 7-item universe (120), every selection of <= 1 selector
+\* (the "or" of several selectors is covered by the Gen_Output cases, which re-check the inclusion test against
+\* the documented selection for <= 3 selectors), all 8 exclusions, all 6 format families, every state of the
+\* stream state machine; every string of <= 4 character classes at every escaping site.
 SPECIFICATION Spec
 CONSTANTS
   MaxItems = 5
-  MaxSel = 2
+  MaxSel = 1
   MaxStr = 4
   Variant = "intended"
 INVARIANTS
